@@ -34,17 +34,17 @@ Lemma nokmh_cache_ok t s : s_kind s <> KMH -> cache_ok t s.
 Proof. unfold cache_ok. destruct (s_kind s); auto. congruence. Qed.
 
 Section Thm.
-Variable joint : list vec -> Q.
+Variable condf : list vec -> nat -> vec -> Q.
 Variable nst : nat -> nat.
 Variable rnd : nat -> nat -> nat -> rnd.
 
 (* repaired HybridGibbs (cached evaluations refreshed when the target is re-conditioned): every block sampler kind *)
 Theorem cache_consistent_fresh ops t0 (x : @run vec Q sst) :
   wf (r_st x) -> Forall (fun e => cache_ok (e_tgt e) (e_s e)) (r_log x) ->
-  Forall (fun e => cache_ok (e_tgt e) (e_s e)) (r_log (run_ops joint s_pt (creinit true) ctrans ctune nst rnd ops t0 x)).
+  Forall (fun e => cache_ok (e_tgt e) (e_s e)) (r_log (run_ops condf s_pt (creinit true) ctrans ctune nst rnd ops t0 x)).
 Proof.
   intros Hwf Hlog.
-  apply (run_cache_consistent joint s_pt (creinit true) ctrans ctune nst (fun _ => True) cache_ok).
+  apply (run_cache_consistent condf s_pt (creinit true) ctrans ctune nst (fun _ => True) cache_ok).
   - auto.
   - auto.
   - auto.
@@ -59,10 +59,10 @@ Qed.
 Theorem cache_consistent_restoring ops t0 (x : @run vec Q sst) :
   wf (r_st x) -> Forall (fun s => s_kind s <> KMH) (g_ss (r_st x)) ->
   Forall (fun e => cache_ok (e_tgt e) (e_s e)) (r_log x) ->
-  Forall (fun e => cache_ok (e_tgt e) (e_s e)) (r_log (run_ops joint s_pt (creinit false) ctrans ctune nst rnd ops t0 x)).
+  Forall (fun e => cache_ok (e_tgt e) (e_s e)) (r_log (run_ops condf s_pt (creinit false) ctrans ctune nst rnd ops t0 x)).
 Proof.
   intros Hwf Hk Hlog.
-  apply (run_cache_consistent joint s_pt (creinit false) ctrans ctune nst (fun s => s_kind s <> KMH) cache_ok).
+  apply (run_cache_consistent condf s_pt (creinit false) ctrans ctune nst (fun s => s_kind s <> KMH) cache_ok).
   - intros i t s H. now rewrite creinit_kind.
   - intros i t s r H. now rewrite ctrans_kind.
   - intros i a b s H. exact H.
@@ -80,7 +80,7 @@ Definition w_fs : list factor :=
 Definition w_sc : list (list (list rnd)) :=
   [[[mkR [0] (-1 # 2) 1]; [mkR [-4] (-20) 1]]; [[mkR [-2] (-1 # 16) 1]; [mkR [0] (-1 # 2) 1]]].
 Definition w_run (fresh : bool) : @run vec Q sst :=
-  hybrid_run fresh w_fs [KMH; KMH] [[1]; [2]] [1; 1] [] w_sc [OSample 2].
+  hybrid_run fresh (qjoint w_fs) [KMH; KMH] [[1]; [2]] [1; 1] [] w_sc [OSample 2].
 
 (* sweep 0: s moves 2 -> -2.  Sweep 1: x = 1 proposes -1; under the current conditional the MH log-ratio is +4, so the
    move is accepted whatever u is; with the restored cache (the value under s = 2) the ratio is negative and, at
